@@ -95,6 +95,8 @@ type caseT struct {
 	nondet       bool              // conc: the Go result may depend on the schedule
 }
 
+var useL bool // compare with the MiniGoL model (loops, nested blocks)
+
 var defRe = regexp.MustCompile(`(?m)^Definition ([A-Za-z0-9_']+)`)
 var evalRe = regexp.MustCompile(`(?s)= \((\d+)%nat, "([^"]*)"\)`)
 
@@ -128,6 +130,9 @@ func main() {
 	case "minigo":
 		cfg.Slices, cfg.Maps, cfg.Structs, cfg.Strings, cfg.Methods, cfg.Widths, cfg.Consts, cfg.MultiRes = false, false, false, false, false, false, false, false
 		cfg.Loops, cfg.NoBlocks, cfg.NoCompl, cfg.NoCalls = false, true, true, true
+	case "minigol":
+		cfg.Slices, cfg.Maps, cfg.Structs, cfg.Strings, cfg.Methods, cfg.Widths, cfg.Consts, cfg.MultiRes = false, false, false, false, false, false, false, false
+		cfg.NoCompl, cfg.NoCalls = true, true
 	case "minigo-neg":
 		cfg.Slices, cfg.Maps, cfg.Structs, cfg.Strings, cfg.Methods, cfg.Widths, cfg.Consts, cfg.MultiRes = false, false, false, false, false, false, false, false
 		cfg.Loops, cfg.NoBlocks, cfg.NoCompl, cfg.NoCalls, cfg.Neg = false, true, true, true, true
@@ -180,7 +185,8 @@ func main() {
 		*n = 0
 	}
 	lenient := catalogue || *profile == "inject" || *profile == "minigo-neg" // declarations may be rejected
-	minigo := *profile == "minigo" || *profile == "minigo-neg"
+	minigo := *profile == "minigo" || *profile == "minigo-neg" || *profile == "minigol"
+	useL = *profile == "minigol"
 	var runner strings.Builder
 	runner.WriteString("package main\n\nimport (\n\t\"fmt\"\n\t\"sort\"\n\t\"strings\"\n")
 	for c := 0; c < *n; c++ {
@@ -509,22 +515,29 @@ func (c *caseT) minigo(coqflags []string, out string) {
 	c.mgTr = map[string]string{}
 	c.mgGo = map[int]string{}
 	var b strings.Builder
-	b.WriteString("From Coq Require Import ZArith String List.\nImport ListNotations.\nFrom GV Require Import Lang.GlSyntax Lang.GlSem Tr.MiniGo.\n")
+	b.WriteString("From Coq Require Import ZArith String List.\nImport ListNotations.\nFrom GV Require Import Lang.GlSyntax Lang.GlSem Tr.MiniGo Tr.MiniGoL.\n")
+	rec, trf, call, show := "gfunc", "tr_func", "go_call", "show_outcome"
+	if useL {
+		rec, trf, call, show = "lfunc", "trl_func", "lgo_call", "show_lout"
+	}
 	fmt.Fprintf(&b, "From Goose Require Import gen.%s.\nSet Printing Width 100000.\nOpen Scope string_scope.\n", strings.ReplaceAll(c.dir, "/", "."))
 	var fns []string
 	for _, f := range c.pkg.Funcs() {
 		t, ok := f.MiniGo()
+		if useL {
+			t, ok = f.MiniGoL()
+		}
 		if !ok {
 			c.mgOut++
 			continue
 		}
 		fns = append(fns, f.Name)
-		fmt.Fprintf(&b, "Definition A_%s : gfunc := %s.\n", f.Name, t)
+		fmt.Fprintf(&b, "Definition A_%s : %s := %s.\n", f.Name, rec, t)
 		if c.defs[f.Name] {
-			fmt.Fprintf(&b, "Eval vm_compute in \"MARK %s\".\nGoal tr_func A_%s = Some %s. Proof. vm_compute. reflexivity. Qed.\n", f.Name, f.Name, f.Name)
+			fmt.Fprintf(&b, "Eval vm_compute in \"MARK %s\".\nGoal %s A_%s = Some %s. Proof. vm_compute. reflexivity. Qed.\n", f.Name, trf, f.Name, f.Name)
 		} else {
 			// goose rejected the function: so must the model
-			fmt.Fprintf(&b, "Eval vm_compute in \"MARK %s\".\nGoal tr_func A_%s = None. Proof. vm_compute. reflexivity. Qed.\n", f.Name, f.Name)
+			fmt.Fprintf(&b, "Eval vm_compute in \"MARK %s\".\nGoal %s A_%s = None. Proof. vm_compute. reflexivity. Qed.\n", f.Name, trf, f.Name)
 		}
 	}
 	inFrag := map[string]bool{}
@@ -539,7 +552,7 @@ func (c *caseT) minigo(coqflags []string, out string) {
 		for j, a := range cl.Args {
 			args = append(args, strings.TrimSuffix(strings.TrimPrefix(coqArg(cl.ArgT[j], a), "("), ")"))
 		}
-		fmt.Fprintf(&b, "Eval vm_compute in (\"GO\", %d%%nat, show_outcome (go_call 5000%%nat A_%s [%s])).\n", i, cl.Fn, strings.Join(args, "; "))
+		fmt.Fprintf(&b, "Eval vm_compute in (\"GO\", %d%%nat, %s (%s 5000%%nat A_%s [%s])).\n", i, show, call, cl.Fn, strings.Join(args, "; "))
 	}
 	cmd := exec.Command("timeout", "300", "coqtop", "-q")
 	cmd.Args = append(cmd.Args, coqflags...)
